@@ -137,6 +137,25 @@ def infer_hint_collections_abc(obj: object, **kwargs) -> Optional[object]:
     # such protocol validates this type *OR* "None" otherwise.
     hint_factory = _infer_hint_factory_collections_abc(obj_type)
 
+    # If at least one "collections.abc" protocol validates this type but this
+    # protocol is structurally checkable at runtime (i.e., directly defines the
+    # __subclasshook__() dunder method, like "collections.abc.Collection") and
+    # rejects this object, ignore this protocol.
+    #
+    # The above getter detects protocols by introspecting the names of the dunder
+    # methods listed by the dir() builtin for this type, which includes dunder
+    # methods defined only by the metaclass of this type and thus *NOT* by
+    # instances of this type (e.g., the "__contains__", "__iter__", and
+    # "__len__" dunder methods listed for "enum.Enum" subclasses but *NOT*
+    # defined by enumeration members). The hint inferred below would then
+    # erroneously reject the very object this hint was inferred from.
+    if (
+        hint_factory and
+        '__subclasshook__' in getattr(hint_factory, '__dict__', ()) and
+        not isinstance(obj, hint_factory)  # type: ignore[arg-type]
+    ):
+        hint_factory = None
+
     # If at least one "collections.abc" protocol validates this type...
     if hint_factory:
         # Defer heavyweight imports.
